@@ -11,6 +11,7 @@ import collections
 import importlib.util
 import json
 import os
+import random
 import re
 import subprocess
 import sys
@@ -319,6 +320,206 @@ def theorem_corpus(ctx, n):
 
 
 
+# ---- production coverage of the model on the generated names -------------------------------------------
+SPECIAL = ["TV", "TT", "TI", "TS", "TF", "TJ", "Th", "Tv", "Tc", "TC", "TH", "TW", "GV", "GR", "GA", "GT"]
+CTORS = ["C1", "C2", "C3", "CI", "D0", "D1", "D2"]
+BUILTINS = "vwbcahstijlmxynofdegz"
+D_TYPES = "defhisacnu"
+STD_ABBR = "tabsiod"
+
+
+def production_label(fn, c0, c1, ops, unary):
+    """map a call of grammar function `fn` with the two current chars to the production (branch) it takes"""
+    a = chr(c0) if 32 < c0 < 127 else ("$" if c0 == 0 else "?")
+    b = chr(c1) if 32 < c1 < 127 else ("$" if c1 == 0 else "?")
+    ab = a + b
+    dig = a.isdigit()
+    if fn == "encoding":
+        return "encoding:special" if a in "TG" else "encoding:name"
+    if fn == "specialName":
+        return "specialName:" + (ab if ab in SPECIAL else "other")
+    if fn == "name":
+        return "name:" + (a if a in "NZS" else "unscoped")
+    if fn == "nestedLoop":
+        if a == "E":
+            return "nestedLoop:end"
+        if ab in ("DT", "Dt"):
+            return "nestedLoop:decltype"
+        if a in "CD":
+            return "nestedLoop:" + ("ctor" if a == "C" else "dtor")
+        if a == "U":
+            return "nestedLoop:U"
+        if a.islower():
+            return "nestedLoop:operator"
+        if dig:
+            return "nestedLoop:source-name"
+        if a in "TISML":
+            return "nestedLoop:" + a
+        if a in "rVKRO":
+            return "nestedLoop:qualifier"
+        return "nestedLoop:other"
+    if fn == "unqualifiedName":
+        if a in "CD":
+            return "unqualifiedName:" + a
+        if ab in ("Ut", "Ul"):
+            return "unqualifiedName:" + ab
+        if a == "U":
+            return "unqualifiedName:U-other"
+        if a.islower():
+            return "unqualifiedName:operator"
+        if a == "L":
+            return "unqualifiedName:L-source-name"
+        return "unqualifiedName:source-name" if dig else "unqualifiedName:other"
+    if fn == "ctorDtorName":
+        return "ctorDtorName:" + (ab if ab in CTORS else "other")
+    if fn == "operatorName":
+        if ab in ops:
+            return "operatorName:" + ab
+        return "operatorName:" + ("vendor" if a == "v" and b.isdigit() else "other")
+    if fn == "typeLoop":
+        if a in "rVK":
+            return "type:cv-qualifier"
+        if a in "PROCG":
+            return "type:" + a
+        if a == "T":
+            return "type:T" + (b if b in "sue" else ("-param" if b == "_" or b.isdigit() else "-other"))
+        if a == "D":
+            if b in D_TYPES:
+                return "type:D" + b
+            return "type:D" + (b if b in "pvtT" else "-other")
+        if a == "S":
+            return "type:S" + (b if b in STD_ABBR else ("_" if b == "_" else "-seq"))
+        if a in "FAMuUINZ":
+            return "type:" + a
+        if dig:
+            return "type:class-name"
+        if a in BUILTINS:
+            return "type:builtin-" + a
+        return "type:eof" if a == "$" else "type:other"
+    if fn == "templateArg":
+        return "templateArg:" + (a if a in "XLJ" else "type")
+    if fn == "exprPrimary":
+        return "exprPrimary:" + ("L_Z-encoding" if b == "_" else "literal")
+    if fn == "expression":
+        if ab == "gs":
+            return "expression:gs"
+        if a == "L":
+            return "expression:primary"
+        if ab in unary:
+            return "expression:unary-" + ab
+        if ab == "qu":
+            return "expression:qu"
+        if ab in ops and not (a == "c" or b == "v"):
+            return "expression:binary-" + ab
+        if ab in ("cl", "cv", "tl", "il", "dc", "sc", "cc", "rc", "ti", "st", "at", "fp", "fL", "dt", "pt", "ds", "sZ", "sP", "tr"):
+            return "expression:" + ab
+        if a == "T" and (b == "_" or b.isdigit()):
+            return "expression:T-param"
+        return "expression:unresolved-name"
+    if fn == "unresolvedName":
+        if ab == "gs":
+            return "unresolvedName:gs"
+        if ab == "sr":
+            return "unresolvedName:sr"
+        return "unresolvedName:base"
+    if fn == "baseUnresolvedName":
+        return "baseUnresolvedName:" + (ab if ab in ("on", "dn") else "simple-id")
+    if fn == "functionType":
+        return "functionType:" + ("FY" if b == "Y" else "F")
+    if fn == "arrayType":
+        return "arrayType:" + ("number" if b.isdigit() else ("empty" if b == "_" else "expression"))
+    if fn == "vectorType":
+        return "vectorType"
+    if fn == "decltype":
+        return "decltype:" + (ab if ab in ("DT", "Dt") else "other")
+    return fn
+
+
+def expected_productions(ops, unary):
+    e = {"encoding:special", "encoding:name"}
+    e |= {"specialName:" + x for x in SPECIAL}
+    e |= {"name:N", "name:Z", "name:S", "name:unscoped"}
+    e |= {"nestedLoop:" + x for x in ["end", "decltype", "ctor", "dtor", "U", "operator", "source-name", "T", "I", "S", "M",
+                                       "L", "qualifier"]}
+    e |= {"unqualifiedName:" + x for x in ["C", "D", "Ut", "Ul", "operator", "L-source-name", "source-name"]}
+    e |= {"ctorDtorName:" + x for x in CTORS}
+    e |= {"operatorName:" + x for x in ops} | {"operatorName:vendor"}
+    e |= {"type:cv-qualifier"} | {"type:" + x for x in "PROCGFAMuUINZ"} | {"type:Ts", "type:Tu", "type:Te", "type:T-param"}
+    e |= {"type:D" + x for x in D_TYPES + "pvtT"} | {"type:S" + x for x in STD_ABBR} | {"type:S_", "type:S-seq"}
+    e |= {"type:class-name"} | {"type:builtin-" + x for x in BUILTINS}
+    e |= {"templateArg:" + x for x in ["X", "L", "J", "type"]} | {"exprPrimary:L_Z-encoding", "exprPrimary:literal"}
+    e |= {"expression:" + x for x in ["gs", "primary", "qu", "cl", "cv", "tl", "il", "dc", "sc", "cc", "rc", "ti", "st", "at",
+                                       "fp", "fL", "dt", "ds", "sZ", "sP", "tr", "T-param", "unresolved-name"]}
+    e |= {"expression:unary-" + u[:2] for u in unary}
+    # (codes that are also unary operators, and "qu", are matched earlier; "pt" is matched as a binary operator)
+    e |= {"expression:binary-" + o for o in ops if not (o[0] == "c" or o[1] == "v") and o not in unary and o != "qu"}
+    e |= {"unresolvedName:gs", "unresolvedName:sr", "unresolvedName:base", "baseUnresolvedName:on",
+          "baseUnresolvedName:dn", "baseUnresolvedName:simple-id", "functionType:F", "functionType:FY",
+          "arrayType:number", "arrayType:empty", "arrayType:expression", "vectorType", "decltype:DT", "decltype:Dt"}
+    # (dd_initializer and its loop are dead code: "nw"/"na" are matched as binary operators first)
+    e |= {"localName", "nestedName", "templateArgs", "argLoop", "ptrToMember", "exprList", "exprListLoop",
+          "unresLoop", "destructorName", "unresolvedType", "simpleId", "ulLoop", "ftLoop", "encLoop", "type"}
+    return e
+
+
+def production_coverage(names, tables):
+    """run the model's production trace (`cov`) on the names; returns the coverage summary for the evidence"""
+    ops = {a + b for a, b, _ in tables["ops"]}
+    unary = {u[:2] for u in tables["unary_ops"]}
+    exe = os.path.join(C.LEAN, ".lake", "build", "bin", "uvmodel")
+    r = subprocess.run([exe, "C13"], input="\n".join("cov " + n.hex() for n in names) + "\n",
+                       stdout=subprocess.PIPE, stderr=subprocess.PIPE, text=True, timeout=1200)
+    prods = collections.Counter()
+    ctx_cov = collections.Counter()
+    follow = collections.Counter()
+    rets = collections.Counter()
+    seen = set()
+    counted = set()
+    nnames = 0
+    for l in r.stderr.split("\n"):
+        if l.startswith("COV "):
+            _, fn, c0, c1, ty, tm = l.split()
+            c0, c1 = int(c0), int(c1)
+            lab = production_label(fn, c0, c1, ops, unary)
+            prods[lab] += 1
+            if fn in ("unqualifiedName", "ctorDtorName", "operatorName"):
+                ctx_cov["%s type%s0 templates%s0" % (fn, "!=" if ty == "1" else "==", "!=" if tm == "1" else "==")] += 1
+            if ty == "0":
+                # template-argument kinds seen at name level, and name components parsed after them
+                if fn == "exprPrimary":
+                    seen.add("L_Z-encoding" if c1 == 95 else "literal")
+                elif fn == "templateArg":
+                    seen.add({88: "X-expression", 74: "J-pack", 76: None}.get(c0, "type"))
+                elif fn == "nestedLoop" and lab == "nestedLoop:decltype":
+                    seen.add("decltype")
+                elif tm == "0" and (fn in ("ctorDtorName", "operatorName") or lab in ("unqualifiedName:source-name",
+                                                                                         "unqualifiedName:Ut", "unqualifiedName:Ul")):
+                    for k in seen:
+                        if k and (k, lab.split(":")[0]) not in counted:
+                            counted.add((k, lab.split(":")[0]))
+                            follow["%s after %s" % (lab.split(":")[0], k)] += 1
+        elif l.startswith("RET "):
+            _, fn, okf = l.split()
+            rets[fn + (":ok" if okf == "1" else ":fail")] += 1
+        elif l == "NAME":
+            nnames += 1
+            seen = set()
+            counted = set()
+    exp = expected_productions(ops, unary)
+    hit = set(prods)
+    return {
+        "names_traced": nnames,
+        "productions_expected": len(exp),
+        "productions_hit": len(hit & exp),
+        "productions_missed": sorted(exp - hit),
+        "productions_hit_counts": dict(sorted(prods.items())),
+        "name_emitting_contexts": dict(sorted(ctx_cov.items())),
+        "name_components_after_template_argument_kind": dict(sorted(follow.items())),
+        "returns": dict(sorted(rets.items())),
+    }
+
+
+
 def kind_of_impl(i):
     """implementation verdict -> the model's result vocabulary"""
     if i == "HANG":
@@ -423,6 +624,10 @@ def run(ctx):
               b"_ZUlE2147483647_", b"_ZUlE2147483646_", b"_Z3a$C", b"_Z3a$Cb", b"_Z2$LT$x", b"_ZN2$BP$test3fooE", b"_ZUt_",
               b"_ZNUt_E", b"_Z4294967297x", b"_Z0x1fabcdefghijklmnopqrstuvwxyz01234v", b"_Z010abcdefghv", b"_Z08v"]:
         add(s, None, "listed")
+    # ---- (c0) mostly-valid names derived from the grammar (nested names with I…E lists containing L…E, X…E,
+    #      L_Z…E, J…E, followed by further components; local names; special names; expressions)
+    for s in gen.grammar_names(rng, 3000 if quick else 60000):
+        add(s, None, "grammar")
     seeds = [c[0] for c in cases if c[2] != "plain"]
     weighted = [c[0] for c in cases if c[2].startswith(("compiled", "unit-test"))] * 3 + seeds
     # ---- (c) mutations
@@ -556,6 +761,14 @@ def run(ctx):
                         "attribution": fid, "theorem": "correspondence Demangle.demangle ~ utils/demangle.c:demangle()"})
             C.violation(ctx, "disagree-" + fid, obj, no_failing_input=not mon)
 
+    # ---- production coverage of the model on the well-formed part of the corpus
+    trace_names = [c[0] for c in cases if c[2].split(":")[0] in ("compiled", "unit-test", "repo-tests", "libstdc++",
+                                                                   "grammar", "tokens")]
+    cap = 6000 if quick else 40000
+    if len(trace_names) > cap:
+        trace_names = random.Random(ctx.seed).sample(trace_names, cap)
+    pcov = production_coverage(trace_names, tables)
+
     samples = []
     for i in range(5, len(cases), max(1, len(cases) // 5)):
         samples.append({"input": cases[i][0].decode("latin-1")[:120], "class": cases[i][2],
@@ -581,6 +794,7 @@ def run(ctx):
         "of_which_explained_by_prefix_model": pre_match,
         "monitor_failures_on_impl": len(monitor_fail),
         "by_finding": {str(k): len(v) for k, v in attributed.items()},
+        "production_coverage": pcov,
         "exhaustive": False,
         "samples": samples,
     })
